@@ -57,6 +57,11 @@ Proof. vm_compute. reflexivity. Qed.
 Example ex_D4_rejected :
   accept_decl (mkDecl "R" 32 None false [mkField "x" (FU 2) true true [RRange 0 2; RRange 5 3] None None false true false] false) = false.
 Proof. vm_compute. reflexivity. Qed.
+(** D5: a write-only field whose custom type (7-bit raw value) is wider than the 6 bits it selects *)
+Example ex_D5_rejected :
+  accept_decl (mkDecl "S" 16 None false [mkField "x" (FCustom "E" 7 false) true false [RRange 0 5] None None false true false;
+                                         mkField "rest" (FU 10) true false [RRange 6 15] None None true true false] false) = false.
+Proof. vm_compute. reflexivity. Qed.
 (** D3: a range list naming a bit twice gets no builder *)
 Example ex_D3_no_builder :
   builder_offered (mkDecl "S" 8 (Some (DLit 0)) false [mkField "a" (FU 8) true true [RRange 0 3; RRange 2 5] None None true true false] false) = None.
